@@ -24,7 +24,7 @@ TRUSTED = ["correspondence harness harness/overlay/index/zz_verif_c09_test.go (g
 
 def run(ctx):
     broken, failures = [], []
-    n = ctx.n(12, 120)
+    n = ctx.n(12, 80)
     hr = vf.go_harness(ctx, "index", "TestVerifC09$", ["index/zz_verif_c09_test.go"], n, timeout=900 if ctx.tier == "quick" else 3600)
     okc, msg = fmtlib.regen_consts(ctx, hr["records"])
     if not okc:
